@@ -69,7 +69,13 @@ func (ca *CA) Pool() *x509.CertPool {
 // Leaf issues a server certificate for the given DNS names / IP literals.
 func (ca *CA) Leaf(notBefore, notAfter time.Time, names ...string) tls.Certificate {
 	for i, n := range names {
-		if !utf8.ValidString(n) || n == "" {
+		ascii := true
+		for j := 0; j < len(n); j++ {
+			if n[j] < 0x21 || n[j] > 0x7e {
+				ascii = false // x509 encodes DNS names as IA5String
+			}
+		}
+		if !utf8.ValidString(n) || n == "" || !ascii {
 			names[i] = "invalid-name.example" // hostile SNI: still hand out some certificate
 		}
 	}
